@@ -1218,14 +1218,15 @@ theorem expireAtLT_finding :
 
 open Proofs.C10.Ex in
 /-- FINDING 3. SCAN sees expired records through its cursor: with "a" expired-but-indexed and "b"
-    live, `SCAN 0 MATCH * COUNT 1` answers (2, []) but (1, [b]) once "a" is purged. -/
+    live, `SCAN 0 MATCH * COUNT 1` answers (2, []) — "a" consumed the COUNT, "b" at position 2 is next —
+    but (0, [b]) (done) once "a" is purged. -/
 theorem expired_invisible_scan_finding :
     AList.Sorted scanSt.index ∧
     (Api.scan scanSt 1000 0 [42] 1 0).2 = .many [.int 2, .slist []] ∧
-    (Api.scan (purge 1000 scanSt) 1000 0 [42] 1 0).2 = .many [.int 1, .slist [kB]] ∧
+    (Api.scan (purge 1000 scanSt) 1000 0 [42] 1 0).2 = .many [.int 0, .slist [kB]] ∧
     (Api.scan scanSt 1000 0 [42] 1 0).2 ≠ (Api.scan (purge 1000 scanSt) 1000 0 [42] 1 0).2 := by
   have a : (Api.scan scanSt 1000 0 [42] 1 0).2 = .many [.int 2, .slist []] := rfl
-  have b : (Api.scan (purge 1000 scanSt) 1000 0 [42] 1 0).2 = .many [.int 1, .slist [kB]] := rfl
+  have b : (Api.scan (purge 1000 scanSt) 1000 0 [42] 1 0).2 = .many [.int 0, .slist [kB]] := rfl
   refine ⟨⟨rfl, trivial⟩, a, b, ?_⟩
   rw [a, b]
   intro h
@@ -1270,7 +1271,7 @@ example : kA ≠ kD := by decide
 example : (2000 : Int) ≠ 0 ∧ (1000 : Int) < 2000 ∧ ((2000 : Int) - 1000) * 1000000 ≤ int64Max - 500000000 :=
   ⟨by decide, by decide, by decide⟩
 /-- `scan_never_returns_expired`: a reply of that shape -/
-example : (Api.scan scanSt 1000 0 [42] 10 0).2 = .many [.int 2, .slist [kB]] := rfl
+example : (Api.scan scanSt 1000 0 [42] 10 0).2 = .many [.int 0, .slist [kB]] := rfl
 /-- `sim_congruence`: two different related states -/
 example : Sim 1000 st (purge 1000 st) ∧ (purge 1000 st).index = [(kA, mA), (kC, mC)] :=
   ⟨sim_purge st 1000 ⟨rfl, rfl, trivial⟩, rfl⟩
